@@ -66,6 +66,12 @@ func runC11(c *core.Ctx, b core.Batch) {
 		nb = 4
 	}
 	types := shard(codecTypes(b), b.N, nb)
+	if b.Cfg == "base" && b.N == 1 {
+		// dynamicpb over PRNG-generated schemas: message shapes no linked type has
+		dt := schemaDynTypes(c, 0x11, c.Scale(6, 60))
+		c.CountN("generated_schema_dynamic_types", int64(len(dt)))
+		types = append(types, dt...)
+	}
 	for ti, mt := range types {
 		md := mt.Descriptor()
 		fds := md.Fields()
